@@ -19,6 +19,7 @@ import (
 	"go/token"
 	"go/types"
 	"sort"
+	"strings"
 
 	"golang.org/x/tools/go/ssa"
 )
@@ -30,6 +31,15 @@ type mustSummary struct {
 	match  func(in ssa.Instruction) bool
 	exempt func(fn *ssa.Function) cutSet
 	memo   map[*ssa.Function]int
+	// cond: calls of helpers for which the summary holds only for the returns whose
+	// boolean result j is K ("retry", "found" …): the call is an event on paths that
+	// take the edge on which that result is K
+	cond map[ssa.Instruction]condEvent
+}
+
+type condEvent struct {
+	idx int
+	val bool
 }
 
 func (m *mustSummary) events(fn *ssa.Function, depth int) []ssa.Instruction {
@@ -44,8 +54,30 @@ func (m *mustSummary) events(fn *ssa.Function, depth int) []ssa.Instruction {
 				continue
 			}
 			if c, ok := in.(*ssa.Call); ok {
-				if sc := c.Call.StaticCallee(); sc != nil && sc != fn && len(sc.Blocks) > 0 && fnPkgPath(sc) == fnPkgPath(fn) && m.holds(sc, depth-1) {
+				sc := c.Call.StaticCallee()
+				if sc == nil || sc == fn || len(sc.Blocks) == 0 || fnPkgPath(sc) != fnPkgPath(fn) {
+					continue
+				}
+				if m.holds(sc, depth-1) {
 					out = append(out, in)
+					continue
+				}
+				// holds for one value of a boolean result?
+				res := sc.Signature.Results()
+				for j := 0; j < res.Len(); j++ {
+					bt, ok := res.At(j).Type().Underlying().(*types.Basic)
+					if !ok || bt.Kind() != types.Bool {
+						continue
+					}
+					for _, k := range []bool{false, true} {
+						if ok, _ := m.checkCond(sc, depth-1, j, k); ok {
+							if m.cond == nil {
+								m.cond = map[ssa.Instruction]condEvent{}
+							}
+							m.cond[in] = condEvent{j, k}
+							out = append(out, in)
+						}
+					}
 				}
 			}
 		}
@@ -75,6 +107,12 @@ func (m *mustSummary) holds(fn *ssa.Function, depth int) bool {
 
 // check returns the first successful return that is not ordered after an event.
 func (m *mustSummary) check(fn *ssa.Function, depth int) (bool, *ssa.Return) {
+	return m.checkCond(fn, depth, -1, false)
+}
+
+// checkCond: like check, restricted to the returns whose boolean result j is not the
+// constant !k (j < 0: all returns).
+func (m *mustSummary) checkCond(fn *ssa.Function, depth int, j int, k bool) (bool, *ssa.Return) {
 	evs := m.events(fn, depth)
 	ei := errorResultIndex(fn.Signature)
 	var ex cutSet
@@ -91,15 +129,33 @@ func (m *mustSummary) check(fn *ssa.Function, depth int) (bool, *ssa.Return) {
 		if _, reach := reachAfter(fn, nil, ret, ex, nil); !reach {
 			continue // unreachable, or reachable only through an exempt edge
 		}
+		if j >= 0 && j < len(ret.Results) {
+			if c, isConst := retVal(ret, j).(*ssa.Const); isConst && c.Value != nil && (c.Value.String() == "true") == !k {
+				continue // the other outcome
+			}
+		}
 		n++
 		ok := false
 		for _, e := range evs {
 			if c, isCall := e.(*ssa.Call); isCall && errValuesOfCall(c) != nil {
-				if orderedAfterSuccess(fn, c, ret, ei) {
-					ok = true
-					break
+				if !orderedAfterSuccess(fn, c, ret, ei) {
+					continue
 				}
-				continue
+				if ce, isCond := m.cond[e]; isCond {
+					// every path from the call to the return takes the edge on which the result is ce.val
+					var bs []ssa.Value
+					for _, ref := range *c.Referrers() {
+						if exr, ok := ref.(*ssa.Extract); ok && exr.Index == ce.idx {
+							bs = append(bs, exr)
+						}
+					}
+					cut := mkCut(boolEdges(fn, forward(bs, fwdOpts{noBinOp: true}), ce.val))
+					if _, reach := reachAfter(fn, c, ret, cut, nil); reach {
+						continue
+					}
+				}
+				ok = true
+				break
 			}
 			if _, reach := reachAfter(fn, nil, ret, ex, map[ssa.Instruction]bool{e: true}); !reach {
 				ok = true
@@ -487,28 +543,41 @@ func init() {
 					}
 				}
 			}
-			// Has answers that comparison
-			okHas := false
+			// Has answers that comparison — on every successful return, from a lookup made in this call
+			// (an answer remembered from an earlier call is stale after the next flush)
+			nHas, badHas := 0, ""
+			hei := errorResultIndex(has.Signature)
 			for _, ret := range returnsOf(has) {
+				if ev := retVal(ret, hei); ev != nil && (definitelyNonNilError(ev) || nonNilByGuard(has, ret, ev)) {
+					continue
+				}
 				v := retVal(ret, 0)
 				if v == nil {
 					continue
 				}
-				if c, ok := v.(*ssa.Const); ok && c.Value != nil {
-					continue // the constant returned next to an error
+				if _, reach := reachAfter(has, nil, ret, nil, nil); !reach {
+					continue
 				}
+				nHas++
+				fromLookup := false
 				for x := range backward(v, nil) {
 					if ex, ok := x.(*ssa.Extract); ok && ex.Index == 0 {
 						if call, ok := ex.Tuple.(*ssa.Call); ok && calleeFunc(call) == idxObj {
-							okHas = true
+							fromLookup = true
 						}
 					}
 				}
+				if !fromLookup {
+					badHas = "a successful return of Has (" + p.Rel(ret.Pos()) + ") does not derive its answer from an indexOf lookup made in this call"
+				}
 			}
-			if okHas {
+			switch {
+			case nHas == 0:
+				r.bad(funcName(has)+"|answer", p.Rel(has.Pos()), "Has answers from indexOf's position", "Has has no successful return")
+			case badHas != "":
+				r.bad(funcName(has)+"|answer", p.Rel(has.Pos()), "Has answers from indexOf's position", badHas)
+			default:
 				r.ok(funcName(has)+"|answer", p.Rel(has.Pos()), "Has answers from indexOf's position")
-			} else {
-				r.bad(funcName(has)+"|answer", p.Rel(has.Pos()), "Has answers from indexOf's position", "no successful return of Has derives its answer from indexOf")
 			}
 			return nil
 		},
@@ -731,7 +800,15 @@ func init() {
 						n++
 						what := "a byte-wise comparison of a stored hash with a probe covers the whole entry"
 						bound, kind := cmpLoopBound(h, ph, base1, base2)
+						start, startKnown := int64(0), false
+						for _, e := range ph.Edges {
+							if k, ok := constInt(e); ok {
+								start, startKnown = k, true
+							}
+						}
 						switch {
+						case !startKnown || start != 0:
+							r.bad(key, p.Rel(bo.Pos()), what, fmt.Sprintf("the comparison loop does not start at byte 0 (starts at %d): hashes that differ only before that byte are taken for equal", start))
 						case kind == "len":
 							r.okWhy(key, p.Rel(bo.Pos()), what, "the loop runs to the length of one of the compared slices")
 						case kind == "const" && bound == wr:
@@ -850,4 +927,204 @@ func keysOf(m map[int64]bool) []int64 {
 	}
 	sort.Slice(out, func(i, j int) bool { return out[i] < out[j] })
 	return out
+}
+
+func init() {
+	register(&Rule{
+		ID: "C20-d", Template: "T10 agreement (what is inserted is what is counted)",
+		Doc: "The fan-out table and the size count exactly the hashes that were written: if the loop of addToHashTable (or of a helper it uses) that looks up the insertion point of every pending hash can finish an iteration without placing that hash, or a list of hashes to insert is replaced by another slice (a filter: repeats inside the batch, already present, …), then Flush does not count the unfiltered batch — the argument of addToFanoutTable and the length added to the size are not the raw batch field. Counting more than was written makes a bucket cover a slot that was never filled: a lookup there reads past the data or finds a neighbour, and the next insertion shifts from the wrong end.",
+		Min: 1,
+		Run: func(p *Program, r *RuleResult) error {
+			flush, err := p.SSAFunc("pkg/index.(*HashSet).Flush")
+			if err != nil {
+				return err
+			}
+			ath, err := p.SSAFunc("pkg/index.(*HashSet).addToHashTable")
+			if err != nil {
+				return err
+			}
+			ii, err := p.MustFuncs("pkg/index.insertIndex")
+			if err != nil {
+				return err
+			}
+			fan, err := p.MustFuncs("pkg/index.addToFanoutTable")
+			if err != nil {
+				return err
+			}
+			batch, err := p.Field("pkg/index.HashSet.batch")
+			if err != nil {
+				return err
+			}
+			size, err := p.Field("pkg/index.HashSet.size")
+			if err != nil {
+				return err
+			}
+			reach := samePkgReach(ath, inlineDepth)
+			r.Analysed = len(reach) + 1
+			// A: every iteration places its hash
+			skipAt := ""
+			nLoops := 0
+			for _, fn := range reach {
+				for _, c := range callsTo(fn, ii) {
+					args := c.Common().Args
+					elem := stripConv(args[len(args)-1])
+					if !derivesFromField(elem, batch) {
+						continue
+					}
+					h := enclosingLoop(c.Block())
+					if h == nil {
+						continue
+					}
+					nLoops++
+					body := loopBody(h)
+					place := map[ssa.Instruction]bool{}
+					for b := range body {
+						for _, in := range b.Instrs {
+							if st, ok := in.(*ssa.Store); ok && stripConv(st.Val) == elem {
+								place[st] = true
+							}
+						}
+					}
+					cut := cutSet{}
+					for e := range loopExitEdges(h) {
+						cut[e] = true
+					}
+					for _, pr := range h.Preds {
+						if !body[pr] || len(pr.Instrs) == 0 {
+							continue
+						}
+						if path, ok := reachAfter(fn, h.Instrs[0], pr.Instrs[len(pr.Instrs)-1], cut, place); ok {
+							skipAt = fmtPath("an iteration of the insertion loop in "+funcName(fn)+" ends without placing its hash", path)
+						}
+					}
+				}
+			}
+			if nLoops == 0 {
+				return &AnchorError{"the loop of addToHashTable that calls insertIndex for every pending hash"}
+			}
+			// ... and a list of hashes to insert only grows: a [][]byte field written in the insertion
+			// code is appended to (or freshly made), never replaced by a filtered copy
+			if skipAt == "" {
+				for _, fn := range reach {
+					for _, b := range fn.Blocks {
+						for _, in := range b.Instrs {
+							st, ok := in.(*ssa.Store)
+							if !ok {
+								continue
+							}
+							fa, ok := st.Addr.(*ssa.FieldAddr)
+							if !ok {
+								continue
+							}
+							f := structField(fa.X.Type(), fa.Field)
+							if f == nil || f == batch {
+								continue
+							}
+							sl, ok := f.Type().Underlying().(*types.Slice)
+							if !ok {
+								continue
+							}
+							if in2, ok := sl.Elem().Underlying().(*types.Slice); !ok {
+								continue
+							} else if bt, ok := in2.Elem().Underlying().(*types.Basic); !ok || bt.Kind() != types.Uint8 {
+								continue
+							}
+							grows := false
+							switch v := stripConv(st.Val).(type) {
+							case *ssa.Call:
+								if isBuiltin(v, "append") && len(v.Call.Args) > 0 && derivesFromField(v.Call.Args[0], f) {
+									grows = true
+								}
+							case *ssa.Slice:
+								_, isLit := v.X.(*ssa.Alloc)
+								grows = isLit
+							case *ssa.MakeSlice:
+								grows = true
+							case *ssa.Const:
+								grows = v.IsNil()
+							}
+							if !grows {
+								skipAt = "the list of hashes to insert (" + f.Name() + ") is replaced by another slice at " + p.Rel(st.Pos()) + " in " + funcName(fn)
+							}
+						}
+					}
+				}
+			}
+			// B: Flush counts the raw batch
+			rawBatch := func(v ssa.Value) bool {
+				u, ok := stripConv(v).(*ssa.UnOp)
+				return ok && u.Op == token.MUL && fieldAddrOf(u.X, batch)
+			}
+			countsRaw := ""
+			for _, fn := range samePkgReach(flush, inlineDepth) {
+				for _, c := range callsTo(fn, fan) {
+					if a := c.Common().Args; len(a) >= 2 && rawBatch(a[1]) {
+						countsRaw = "addToFanoutTable is given the whole batch (" + p.Rel(c.Pos()) + ")"
+					}
+				}
+				for _, b := range fn.Blocks {
+					for _, in := range b.Instrs {
+						st, ok := in.(*ssa.Store)
+						if !ok || !fieldAddrOf(st.Addr, size) {
+							continue
+						}
+						for v := range backward(st.Val, nil) {
+							if cl, ok := v.(*ssa.Call); ok && isBuiltin(cl, "len") && len(cl.Call.Args) == 1 && rawBatch(cl.Call.Args[0]) {
+								if countsRaw == "" {
+									countsRaw = "the size grows by len(batch) (" + p.Rel(st.Pos()) + ")"
+								}
+							}
+						}
+					}
+				}
+			}
+			key := funcName(ath) + "|inserted=counted"
+			what := "the fan-out table and the size count exactly the hashes that were written"
+			switch {
+			case skipAt == "":
+				r.ok(key, p.Rel(ath.Pos()), what)
+			case countsRaw != "":
+				r.bad(key, p.Rel(ath.Pos()), what, skipAt+"; but "+countsRaw)
+			default:
+				r.okWhy(key, p.Rel(ath.Pos()), what, "the insertion filters the batch and Flush does not count the raw batch (the counted collection is not followed further)")
+			}
+			return nil
+		},
+	})
+}
+
+func init() {
+	register(&Rule{
+		ID: "C20-e", Template: "T1 must-traverse (flushed before it is consulted)",
+		Doc: "The set is consulted only once it is flushed: every production call of (*HashSet).Has outside pkg/index is reachable only after a successful (*HashSet).Flush in the same function (or, if the function has none, in each of its callers) — additions still sitting in the batch are invisible to Has, so an unflushed set answers 'not a member' for a row the merge has resolved and the base version of that row is added next to it. (The property is stated for the flushed set; this is the one production consumer keeping its side of that.)",
+		Min: 1,
+		Run: func(p *Program, r *RuleResult) error {
+			has, err := p.MustFuncs("pkg/index.(*HashSet).Has")
+			if err != nil {
+				return err
+			}
+			fl, err := p.MustFuncs("pkg/index.(*HashSet).Flush")
+			if err != nil {
+				return err
+			}
+			fns := p.ProdFuncs()
+			r.Analysed = len(fns)
+			gc := &guardCheck{p: p, pre: newSuccSummary(p, fl)}
+			for _, fn := range fns {
+				if strings.HasSuffix(fnPkgPath(fn), "/pkg/index") {
+					continue
+				}
+				for _, c := range callsTo(fn, has) {
+					key := callKey(fn, c)
+					what := "membership is asked of a flushed set"
+					if ok, why := gc.check(fn, c, wrapperDepth); ok {
+						r.ok(key, p.Rel(c.Pos()), what)
+					} else {
+						r.bad(key, p.Rel(c.Pos()), what, "Has is reachable without a successful Flush before it: "+why)
+					}
+				}
+			}
+			return nil
+		},
+	})
 }
